@@ -88,8 +88,13 @@ func runC17(c *core.Ctx) {
 					nonEmpty = true
 				}
 			}
-			if f.Op == "!=" && strings.Contains(f.String(), "[0]") && (strings.Contains(f.String(), "& 1)") || strings.Contains(f.String(), "(1 &")) {
-				leader = true
+			for _, side := range []string{f.A, f.B} {
+				if strings.Contains(side, "[0]") && (strings.Contains(side, "& 1)") || strings.Contains(side, "(1 &")) {
+					// (bitmap[0] & 1) != 0, == 1, >= 1: the masked bit is known to be set
+					if lb, ok := f.LowerBound(side); ok && lb >= 1 {
+						leader = true
+					}
+				}
 			}
 		}
 		c.Check(nonEmpty, "C17/verify-passes-all-checks", "VerifySignature/bitmap-non-empty", vs.Pos(), "an empty bitmap is rejected first", "no dominating test rejects an empty bitmap")
